@@ -216,6 +216,30 @@ pub enum DocParagraphs {
     ),
 }
 
+/// a user type that merely shares its name with core's marker: it carries data and is a member like any other
+pub mod lookalike {
+    #[derive(super::TypeInfo)]
+    pub struct PhantomData<T>(pub T);
+}
+
+#[derive(TypeInfo)]
+pub struct NamedLikeAMarker {
+    pub a: lookalike::PhantomData<u8>,
+    pub b: core::marker::PhantomData<u16>,
+    pub c: u32,
+}
+
+#[derive(TypeInfo)]
+pub enum MarkersInVariants<T> {
+    Unnamed(u8, core::marker::PhantomData<T>, u16),
+    Named { x: core::marker::PhantomData<T>, y: bool },
+    Look(lookalike::PhantomData<u8>),
+}
+
+#[derive(TypeInfo)]
+#[scale_info(replace_segment("verif_fixtures", "first"), replace_segment("verif_fixtures", "second"))]
+pub struct ReplacedTwice;
+
 /// default capture
 #[derive(TypeInfo)]
 #[scale_info(capture_docs = "default")]
